@@ -45,8 +45,8 @@ def make_pool(rng, kbpk):
     pool["load_fail"] = [("L", s) for s in (bad["u_nonalnum"], bad["u_short"], bad["u_version"], bad["u_count"],
                                              bad["u_blocks_partial"], bad["u_block_id"], "A1234M3DC11S0XZZ", "C0016P0TE00N0100KS")]
     pool["set_block"] = [("B", "KS", "00604B120F9292800000"), ("B", "T1", "x" * 260), ("B", "K1", ""), ("B", "**", "1"), ("B", "Q2", "é"),
-                         ("B", "KSN", "1"), ("B", "T", "12"), ("B", "K_", "123"), ("B", "", "x"), ("B", "ab", "\x7f"), ("B", "ks", "A b ")]
-    pool["del_block"] = [("D", "KS"), ("D", "T1"), ("D", "ZZ")]
+                         ("B", "PB", "x"), ("B", "pb", "12"), ("B", "KSN", "1"), ("B", "T", "12"), ("B", "K_", "123"), ("B", "", "x"), ("B", "ab", "\x7f"), ("B", "ks", "A b ")]
+    pool["del_block"] = [("D", "KS"), ("D", "T1"), ("D", "ZZ"), ("D", "PB")]
     pool["set_field"] = [("F", 0, "A"), ("F", 0, "D"), ("F", 0, "E"), ("F", 1, "K0"), ("F", 2, "A"), ("F", 3, "X"), ("F", 4, "9z"),
                          ("F", 5, "S"), ("F", 1, "K"), ("F", 2, "__")]
     pool["wrap"] = [("W", rng.randbytes(16), None), ("W", rng.randbytes(5), 30), ("W", b"", None), ("W", rng.randbytes(24), -1)]
